@@ -16,9 +16,11 @@ func init() {
 		Explain: "Decides structural necessary conditions of 'derived expectations agree with the reference peers; loading never crashes': " +
 			"(panic) every potential panic site (index, slice, make, type assertion, division, explicit panic) reachable from parseTestSuites and newTestCaseLibrary is discharged by a guard — 'loading and expanding any parseable suite never crashes the runner' for these panic classes; " +
 			"(nilreq) a test case without a request is rejected in parseTestSuites before anything dereferences it, helpers called from there are only called with a checked case, the library is only ever built from parseTestSuites' result, and nothing in the runner nils a request or builds a TestCase without one; " +
-			"(contract) in both servers' stream handlers and in the expectation generator, request info is echoed only in the first response (counter == 0) or in the full-duplex per-request branch, the full (header-carrying) request info only for the first response, and request info is appended to the error details only when no response was sent and an error is defined; " +
+			"(contract) in both servers' stream handlers and in the expectation generator, request info is echoed only in the first response (counter == 0) or in the full-duplex per-request branch, the full request info with headers and timeout only for the first response, request info is appended to the error details only when no response was sent and an error is defined, and the received-requests buffer is emptied after each full-duplex response; " +
 			"(duplex-aware) the generator's request list for the no-response error case depends on the stream type (a full-duplex server fails after the first request, a half-duplex one after all) — KNOWN FINDING D9 on the current tree; " +
-			"(unary-contract) both servers and the generator append the request info to the error details on the error arm and take the payload data from the response definition on the data arm. " +
+			"(unary-contract) both servers and the generator append the request info to the error details on the error arm and take the payload data from the response definition on the data arm; " +
+			"(bin) the gRPC peers see the same binary metadata as the Connect peers: every test for a binary key is on the lower-cased key and the three grpcutil converters decode/encode symmetrically (rules shared with C18); " +
+			"(raw-status) the reference server's hand-made gRPC status trailers carry err.Code(), the percent-encoded message in grpc-message and the verbatim message and code in the google.rpc.Status of grpc-status-details-bin. " +
 			"It does NOT decide that the three components agree on arbitrary well-formed cases across the protocol stack (an end-to-end behavioural equality).",
 		NotDecided: []string{"agreement of generator, reference server and gRPC server on arbitrary well-formed cases over codec × compression × HTTP version", "header canonicalisation performed by net/http, connect-go and grpc-go"},
 		Assume:     []string{"protoyaml never yields nil elements in repeated message fields other than through absent sub-messages (Request)"},
